@@ -1,3 +1,378 @@
-From Coq Require Import ZArith QArith List Bool Lia.
+(* C10 proofs: for ALL leaf kernels (lfit / lpred abstract), all series, all histories. *)
+From Coq Require Import ZArith QArith List Bool Lia ZifyBool.
 Require Import SkV.Lib.Base SkV.C09.Model SkV.C09.Proofs SkV.C10.Model.
-Lemma stub : True. Proof. exact I. Qed.
+Import ListNotations.
+Open Scope Z_scope.
+
+(* merging a list of batches, in the order given, into a memory *)
+Definition merge_all (bs : list series) (m : series) : series :=
+  fold_left (fun m b => cfirst b m) bs m.
+
+(* the value of the latest batch that contains t, else the old one *)
+Fixpoint latest (t : Z) (bs : list series) (acc : option Q) : option Q :=
+  match bs with
+  | [] => acc
+  | b :: r => latest t r (match lookup t b with Some v => Some v | None => acc end)
+  end.
+
+Lemma merge_all_lookup : forall bs m t, lookup t (merge_all bs m) = latest t bs (lookup t m).
+Proof.
+  induction bs as [|b r IH]; intros m t; [reflexivity|].
+  unfold merge_all. cbn [fold_left latest]. fold (merge_all r (cfirst b m)).
+  rewrite IH, cfirst_lookup. reflexivity.
+Qed.
+
+Lemma merge_all_times : forall bs m x,
+  In x (times (merge_all bs m)) <-> In x (times m) \/ exists b, In b bs /\ In x (times b).
+Proof.
+  induction bs as [|b r IH]; intros m x.
+  - cbn. split; [tauto|]. intros [H|[b [[] _]]]. exact H.
+  - unfold merge_all. cbn [fold_left]. fold (merge_all r (cfirst b m)). rewrite IH, cfirst_times.
+    split.
+    + intros [[H|H]|[b' [H1 H2]]].
+      * right. exists b. split; [left; reflexivity|exact H].
+      * left. exact H.
+      * right. exists b'. split; [right; exact H1|exact H2].
+    + intros [H|[b' [[<-|H1] H2]]].
+      * left. right. exact H.
+      * left. left. exact H2.
+      * right. exists b'. split; assumption.
+Qed.
+
+Lemma merge_all_sorted : forall bs m, sorted_lt (times m) -> sorted_lt (times (merge_all bs m)).
+Proof.
+  induction bs as [|b r IH]; intros m H; [exact H|].
+  unfold merge_all. cbn [fold_left]. apply IH. apply cfirst_sorted. exact H.
+Qed.
+
+Lemma merge_all_app : forall a b m, merge_all (a ++ b) m = merge_all b (merge_all a m).
+Proof. intros. unfold merge_all. apply fold_left_app. Qed.
+
+Section HistProofs.
+  Variable leaf : Type.
+  Variable lpar : Type.
+  Variable lfit : leaf -> series -> lpar.
+  Variable lpred : leaf -> lpar -> series -> Z -> Z -> Q.
+  Variable lsetsfh : leaf -> bool.
+  Variable ldefwl : leaf -> lpar -> Z.
+
+  Local Notation fstateT := (fstate lpar).
+  Local Notation set_fh' := (set_fh lpar).
+  Local Notation set_cut' := (set_cut lpar).
+  Local Notation fit_state' := (fit_state leaf lpar lfit).
+  Local Notation mem_upd' := (mem_upd lpar).
+  Local Notation do_update' := (do_update leaf lpar lfit).
+  Local Notation forecast' := (forecast leaf lpar lpred).
+  Local Notation do_predict' := (do_predict leaf lpar lpred).
+  Local Notation do_ups' := (do_ups leaf lpar lfit lpred).
+  Local Notation mc_step' := (mc_step leaf lpar lfit lpred lsetsfh).
+  Local Notation default_cv' := (default_cv leaf lpar lsetsfh ldefwl).
+  Local Notation do_update_predict' := (do_update_predict leaf lpar lfit lpred lsetsfh ldefwl).
+  Local Notation step' := (step leaf lpar lfit lpred lsetsfh ldefwl).
+  Local Notation after' := (after leaf lpar lfit lpred lsetsfh ldefwl).
+  Local Notation run' := (run leaf lpar lfit lpred lsetsfh ldefwl).
+
+  (* ---------------- memory ---------------- *)
+
+  Lemma mem_upd_mem (s : fstateT) y : fmem lpar (mem_upd' s y) = cfirst y (fmem lpar s).
+  Proof. destruct y; reflexivity. Qed.
+
+  Lemma do_update_mem l (s : fstateT) y up :
+    fmem lpar (fst (do_update' l s y up)) = cfirst y (fmem lpar s).
+  Proof.
+    unfold do_update. destruct up; [|apply mem_upd_mem].
+    destruct (ffh lpar (mem_upd' s y)); cbn [fst fit_state fmem]; apply mem_upd_mem.
+  Qed.
+
+  Lemma mc_step_false l h up : forall ws (s : fstateT) out,
+    fold_left (mc_step' l h up) ws (s, out, false) = (s, out, false).
+  Proof. induction ws as [|w r IH]; intros s out; [reflexivity|]. cbn [fold_left mc_step]. apply IH. Qed.
+
+  Lemma mc_loop_mem l h up : forall ws (s : fstateT) out s' out',
+    fold_left (mc_step' l h up) ws (s, out, true) = (s', out', true) ->
+    fmem lpar s' = merge_all ws (fmem lpar s).
+  Proof.
+    induction ws as [|w r IH]; intros s out s' out' H.
+    - cbn in H. injection H as <- _. reflexivity.
+    - cbn [fold_left mc_step] in H. pose proof (do_update_mem l s w up) as M.
+      destruct (do_update' l s w up) as [s1 ok1]. cbn [fst] in M. destruct ok1.
+      + apply IH in H. rewrite H. unfold merge_all at 2. cbn [fold_left].
+        fold (merge_all r (cfirst w (fmem lpar s))). rewrite <- M.
+        destruct (lsetsfh l); reflexivity.
+      + rewrite mc_step_false in H. discriminate.
+  Qed.
+
+  (* the batches a call hands over *)
+  Definition op_batches (l : leaf) (s : fstateT) (o : op) : list series :=
+    match o with
+    | OFit _ _ | OPredict _ => []
+    | OUpdate y _ | OUps y _ _ => [y]
+    | OUpdPred y cv _ =>
+        match (match cv with Some c => Some c | None => default_cv' l s end) with
+        | Some c => match cv_windows c (Z.of_nat (length y)) with
+                    | Ok ws => map (take y) ws
+                    | Err => []
+                    end
+        | None => []
+        end
+    end.
+  Definition op_base (s : fstateT) (o : op) : series :=
+    match o with OFit y _ => y | _ => fmem lpar s end.
+
+  (* after every call that does not raise, the forecaster remembers what it remembered before (for
+     fit: the new training series) merged with every batch the call handed over, in order *)
+  Lemma step_memory l (s : fstateT) o :
+    snd (step' l s o) <> BErr ->
+    fmem lpar (fst (step' l s o)) = merge_all (op_batches l s o) (op_base s o).
+  Proof.
+    destruct o as [y fh|y up|fh|y fh up|y cv up]; cbn [step op_batches op_base]; intro H.
+    - unfold do_refit in *. destruct fh as [h|]; [reflexivity|].
+      destruct (ffh lpar s); [reflexivity|]. cbn in H. congruence.
+    - pose proof (do_update_mem l s y up) as M. destruct (do_update' l s y up) as [s1 ok].
+      cbn [fst] in *. exact M.
+    - unfold do_predict. destruct fh as [h|]; cbn [set_fh ffh]; [reflexivity|].
+      destruct (ffh lpar s); reflexivity.
+    - unfold do_ups in *. destruct (ffh lpar (set_fh' s fh)) eqn:E.
+      + pose proof (do_update_mem l (set_fh' s fh) y up) as M.
+        destruct (do_update' l (set_fh' s fh) y up) as [s2 ok]. cbn [fst] in M.
+        assert (F : fmem lpar (set_fh' s fh) = fmem lpar s) by (destruct fh; reflexivity).
+        rewrite F in M. destruct ok; cbn [fst]; exact M.
+      + cbn in H. congruence.
+    - unfold do_update_predict in *.
+      destruct (match cv with Some c => Some c | None => default_cv' l s end) as [c|];
+        [|cbn in H; congruence].
+      destruct (cv_windows c (Z.of_nat (length y))) as [ws|]; [|cbn in H; congruence].
+      destruct (fold_left (mc_step' l (cv_fh c) up) (map (take y) ws)
+                          (set_cut' s (zfirst (times y) - 1), [], true)) as [[s1 out] ok] eqn:E.
+      cbn [fst snd] in *. destruct ok; [|congruence].
+      apply mc_loop_mem in E. cbn [set_cut fmem]. exact E.
+  Qed.
+
+  (* histories of updates: the memory is the union of everything given, newer wins - whatever the
+     update_params flags and whether or not a refit raised *)
+  Lemma updates_memory l : forall (ups : list (series * bool)) (s : fstateT),
+    fmem lpar (after' l s (map (fun u => OUpdate (fst u) (snd u)) ups)) =
+    merge_all (map fst ups) (fmem lpar s).
+  Proof.
+    induction ups as [|[y up] r IH]; intros s; [reflexivity|].
+    unfold after. cbn [map fold_left fst snd step].
+    pose proof (do_update_mem l s y up) as M. destruct (do_update' l s y up) as [s1 ok].
+    cbn [fst] in *. fold (after' l s1 (map (fun u => OUpdate (fst u) (snd u)) r)).
+    rewrite IH, M. reflexivity.
+  Qed.
+
+  (* ---------------- refit on update ---------------- *)
+
+  (* once a horizon is known, update(y, update_params=True) leaves the forecaster in exactly the
+     state of a fresh one fitted on the union of the remembered data and y *)
+  Lemma refit_on_update_equals_fresh_fit l (s : fstateT) y h :
+    ffh lpar s = Some h ->
+    do_update' l s y true = (fit_state' l (cfirst y (fmem lpar s)) (Some h), true).
+  Proof.
+    intro H. unfold do_update.
+    assert (F : ffh lpar (mem_upd' s y) = Some h) by (destruct y; exact H).
+    rewrite F, mem_upd_mem. reflexivity.
+  Qed.
+
+  (* the property's sentence: fit(y1); update(y2); predict == fit(y1 followed by y2); predict,
+     on the returned forecast, the cutoff, the remembered data and the stored horizon *)
+  Lemma fit_update_equals_fit_on_union l y1 y2 h :
+    last (run' l y1 (Some h) [OUpdate y2 true; OPredict None]) (BErr, 0, [], None) =
+    last (run' l (cfirst y2 y1) (Some h) [OPredict None]) (BErr, 0, [], None).
+  Proof.
+    unfold run. cbn [run_ops step].
+    rewrite (refit_on_update_equals_fresh_fit l (fit_state' l y1 (Some h)) y2 h eq_refl).
+    cbn [fit_state fmem]. unfold do_predict. cbn [set_fh fit_state ffh]. reflexivity.
+  Qed.
+
+  (* ... and "y1 followed by y2" is literal when y2 lies after y1 *)
+  Lemma union_of_consecutive_batches_is_append y1 y2 :
+    sorted_lt (times y2) -> (forall a b, In a (times y1) -> In b (times y2) -> a < b) ->
+    cfirst y2 y1 = y1 ++ y2.
+  Proof. intros. apply cfirst_append; assumption. Qed.
+
+  (* ---------------- no parameter update ---------------- *)
+
+  (* update(y, update_params=False) with data: parameters and horizon untouched, data merged, the
+     cutoff is the end of the new data and forecasts are made from there with the OLD parameters *)
+  Lemma no_param_update_keeps_params_moves_cutoff l (s : fstateT) y h :
+    y <> [] ->
+    let s' := fst (do_update' l s y false) in
+    snd (do_update' l s y false) = true /\
+    fpar lpar s' = fpar lpar s /\ ffh lpar s' = ffh lpar s /\
+    fmem lpar s' = cfirst y (fmem lpar s) /\ fcut lpar s' = last_time y /\
+    forecast' l s' h =
+      map (fun k => (last_time y + k, lpred l (fpar lpar s) (cfirst y (fmem lpar s)) (last_time y) k)) h.
+  Proof.
+    intro Hy. destruct y as [|p r]; [congruence|]. cbn. repeat split; reflexivity.
+  Qed.
+
+  (* ---------------- update_predict ---------------- *)
+
+  (* the sequence of single updates and predicts, started from the time point before the data *)
+  Fixpoint singles (l : leaf) (h : list Z) (up : bool) (s : fstateT) (ws : list series)
+    : list (Z * series) :=
+    match ws with
+    | [] => []
+    | w :: r =>
+        let s1 := fst (do_update' l s w up) in
+        let s2 := if lsetsfh l then set_fh' s1 (Some h) else s1 in
+        (fcut lpar s2, forecast' l s2 h) :: singles l h up s2 r
+    end.
+
+  Lemma mc_loop_singles l h up : forall ws (s : fstateT) out s' out',
+    fold_left (mc_step' l h up) ws (s, out, true) = (s', out', true) ->
+    out' = out ++ singles l h up s ws.
+  Proof.
+    induction ws as [|w r IH]; intros s out s' out' H.
+    - cbn in H. injection H as _ <-. rewrite app_nil_r. reflexivity.
+    - cbn [fold_left mc_step] in H. cbn [singles].
+      destruct (do_update' l s w up) as [s1 ok1]. cbn [fst]. destruct ok1.
+      + apply IH in H. rewrite H, <- app_assoc. reflexivity.
+      + rewrite mc_step_false in H. discriminate.
+  Qed.
+
+  (* update_predict returns, per window of the splitter, the forecast made right after the single
+     update with that window, labelled by the cutoff that update produced *)
+  Lemma update_predict_is_loop_of_singles l (s : fstateT) y c up s' out ws :
+    do_update_predict' l s y (Some c) up = (s', BPreds out) ->
+    cv_windows c (Z.of_nat (length y)) = Ok ws ->
+    out = singles l (cv_fh c) up (set_cut' s (zfirst (times y) - 1)) (map (take y) ws).
+  Proof.
+    intros H W. unfold do_update_predict in H. rewrite W in H.
+    destruct (fold_left (mc_step' l (cv_fh c) up) (map (take y) ws)
+                        (set_cut' s (zfirst (times y) - 1), [], true)) as [[s1 o1] ok] eqn:E.
+    destruct ok; [|discriminate]. injection H as _ <-.
+    apply mc_loop_singles in E. exact E.
+  Qed.
+
+  (* each element of that sequence is what the public update_predict_single(window, fh) returns:
+     same forecast, same cutoff, same remembered data and parameters afterwards *)
+  Lemma single_step_is_update_predict_single l (s : fstateT) w h up :
+    (up = true -> ffh lpar s <> None) ->
+    let s1 := fst (do_update' l s w up) in
+    let s2 := if lsetsfh l then set_fh' s1 (Some h) else s1 in
+    let r := do_ups' l s w (Some h) up in
+    snd r = BPred (forecast' l s2 h) /\ fcut lpar (fst r) = fcut lpar s2 /\
+    fmem lpar (fst r) = fmem lpar s2 /\ fpar lpar (fst r) = fpar lpar s2.
+  Proof.
+    intro Hfh. unfold do_ups, do_update. cbn [set_fh ffh fmem fcut fpar].
+    destruct up.
+    - destruct (ffh lpar s) as [h0|] eqn:E; [|exfalso; apply (Hfh eq_refl); reflexivity].
+      assert (F : ffh lpar (mem_upd' s w) = Some h0) by (destruct w; exact E).
+      rewrite F.
+      assert (G : ffh lpar (mem_upd' {| fmem := fmem lpar s; fcut := fcut lpar s; ffh := Some h;
+                                       fpar := fpar lpar s |} w) = Some h) by (destruct w; reflexivity).
+      rewrite G. cbn [fst snd]. rewrite !mem_upd_mem. cbn [fmem].
+      destruct (lsetsfh l); repeat split; reflexivity.
+    - cbn [fst snd]. destruct w as [|p r]; destruct (lsetsfh l); repeat split; reflexivity.
+  Qed.
+
+  (* the forecaster's own cutoff is where it was before the call - also when the call raises *)
+  Lemma update_predict_restores_cutoff l (s : fstateT) y cv up :
+    fcut lpar (fst (do_update_predict' l s y cv up)) = fcut lpar s.
+  Proof.
+    unfold do_update_predict.
+    destruct (match cv with Some c => Some c | None => default_cv' l s end) as [c|]; [|reflexivity].
+    destruct (cv_windows c (Z.of_nat (length y))) as [ws|]; [|reflexivity].
+    destruct (fold_left (mc_step' l (cv_fh c) up) (map (take y) ws)
+                        (set_cut' s (zfirst (times y) - 1), [], true)) as [[s1 o1] ok].
+    reflexivity.
+  Qed.
+
+  (* predict never moves the cutoff nor touches the memory or the parameters *)
+  Lemma predict_is_read_only l (s : fstateT) fh :
+    let s' := fst (do_predict' l s fh) in
+    fcut lpar s' = fcut lpar s /\ fmem lpar s' = fmem lpar s /\ fpar lpar s' = fpar lpar s.
+  Proof.
+    unfold do_predict. destruct fh as [h|]; cbn [set_fh ffh].
+    - repeat split; reflexivity.
+    - destruct (ffh lpar s); repeat split; reflexivity.
+  Qed.
+End HistProofs.
+
+(* ---------------- composites: propagation ---------------- *)
+
+Section CompositeProofs.
+  Variable leaf : Type.
+  Variable lpar : Type.
+  Variable lfit : leaf -> series -> lpar.
+  Variable lpred : leaf -> lpar -> series -> Z -> Z -> Q.
+  Variable tr : Type.
+  Variable tpar : Type.
+  Variable tfit : tr -> series -> tpar.
+  Variable tupd : tr -> tpar -> series -> bool -> tpar.
+  Variable tapp : tr -> tpar -> series -> series.
+  Variable tinv : tr -> tpar -> series -> series.
+  Variable tskip : tr -> bool.
+  Variable thasupd : tr -> bool.
+  Variable reg : Type.
+  Variable rpar : Type.
+  Variable rfit : reg -> list (list Q) -> list Q -> rpar.
+  Variable rpred : reg -> rpar -> list Q -> Q.
+
+  Local Notation state' :=
+    (state_after leaf lpar lfit lpred tr tpar tfit tupd tapp tinv tskip thasupd reg rpar rfit rpred).
+  Local Notation own' := (own_base leaf lpar tr tpar reg rpar).
+
+  Lemma base_upd_mem b y : mem (base_upd b y) = cfirst y (mem b).
+  Proof. destruct y; reflexivity. Qed.
+
+  Lemma base_after_mem : forall ups b, mem (base_after b ups) = merge_all (map fst ups) (mem b).
+  Proof.
+    induction ups as [|[y up] r IH]; intros b; [reflexivity|].
+    unfold base_after. cbn [fold_left map fst]. fold (base_after (base_upd b y) r).
+    rewrite IH, base_upd_mem. reflexivity.
+  Qed.
+
+  Lemma base_after_cut : forall ups b y up, y <> [] ->
+    cut (base_after b (ups ++ [(y, up)])) = last_time y.
+  Proof.
+    intros ups b y up Hy. unfold base_after. rewrite fold_left_app. cbn [fold_left fst].
+    destruct y; [congruence|]. reflexivity.
+  Qed.
+
+  (* every composite keeps, next to its parts, its own memory = union of everything it was given
+     (newer wins) and its own cutoff = end of the latest non-empty batch; the same batches reach
+     the parts (C09: ensemble / multiplexer / stacking members get them verbatim, the pipeline's
+     final forecaster gets them transformed) *)
+  Lemma composite_own_memory_and_cutoff (f : fc leaf tr reg) y fh ups :
+    match f with
+    | Leaf _ _ _ _ _ => True
+    | Mux _ _ _ sel ms => nth_error ms sel <> None
+    | _ => True
+    end ->
+    match f with
+    | Leaf _ _ _ _ _ => True
+    | _ => exists b, own' (state' f y fh ups) = Some b /\
+                     mem b = merge_all (map fst ups) y /\
+                     (forall r yl up, ups = r ++ [(yl, up)] -> yl <> [] -> cut b = last_time yl) /\
+                     (ups = [] -> cut b = last_time y)
+    end.
+  Proof.
+    intro Hv. destruct f as [g l|a ms|ts f0|sel ms|g r ms]; [exact I| | | |].
+    - rewrite (ens_state leaf lpar lfit lpred tr tpar tfit tupd tapp tinv tskip thasupd reg rpar
+                         rfit rpred).
+      eexists. split; [reflexivity|]. rewrite base_after_mem. split; [reflexivity|]. split.
+      + intros r0 yl up -> Hy. apply base_after_cut. exact Hy.
+      + intros ->. reflexivity.
+    - destruct (pipeline_final_only_sees_transformed leaf lpar lfit lpred tr tpar tfit tupd tapp
+                  tinv tskip thasupd reg rpar rfit rpred ts f0 y fh ups) as [fs0 [_ E]].
+      rewrite E. eexists. split; [reflexivity|]. rewrite base_after_mem. split; [reflexivity|].
+      split.
+      + intros r0 yl up -> Hy. apply base_after_cut. exact Hy.
+      + intros ->. reflexivity.
+    - destruct (nth_error ms sel) as [m|] eqn:E; [|congruence].
+      rewrite (multiplex_state leaf lpar lfit lpred tr tpar tfit tupd tapp tinv tskip thasupd reg
+                               rpar rfit rpred sel ms m y fh ups E).
+      eexists. split; [reflexivity|]. rewrite base_after_mem. split; [reflexivity|]. split.
+      + intros r0 yl up -> Hy. apply base_after_cut. exact Hy.
+      + intros ->. reflexivity.
+    - destruct (stack_meta_trained_on_holdout leaf lpar lfit lpred tr tpar tfit tupd tapp tinv
+                  tskip thasupd reg rpar rfit rpred g r ms y fh ups) as [E _].
+      rewrite E. eexists. split; [reflexivity|]. rewrite base_after_mem. split; [reflexivity|].
+      split.
+      + intros r0 yl up -> Hy. apply base_after_cut. exact Hy.
+      + intros ->. reflexivity.
+  Qed.
+End CompositeProofs.
